@@ -867,8 +867,7 @@ PROPS = {
                    "line the author wrote, in every include graph) + errorSites_unshifted, a kernel-checked theorem over the "
                    "table of all 42 format_error call sites and 8 forwarding calls re-extracted from the source on every run "
                    "(each passes the index unshifted); on the whole text-level parser model, parseLines_diag_in_text: for every text "
-                   "and every behaviour of ast.parse that reports a statement's syntax error on one of the statement's own lines "
-                   "(StmtLinesOk, checked on every recorded table) a located diagnostic names a line OF the text (the line the loop "
+                   "and every behaviour of ast.parse a located diagnostic names a line OF the text (the line the loop "
                    "stands on, the opening line of an unclosed block, a line of a multi-line statement or of a join block), and "
                    "diag_names_true_origin: composed with the include resolver, the file and 1-based line in the diagnostic's header "
                    "exist in a file the author wrote and read exactly the combined line the parser was looking at; that this line is "
